@@ -252,6 +252,8 @@ impl MmioRegs {
                 let was_reset = v == 0;
                 self.dev.borrow_mut().set_status(v);
                 if was_reset {
+                    // A reset re-initialises the device: the queue selector reads 0 again.
+                    self.queue_sel = 0;
                     for r in self.ready_shadow.iter_mut() {
                         *r = 0;
                     }
@@ -423,6 +425,8 @@ impl PciRegs {
                         *e = 0;
                     }
                     self.reset_lag_left = self.reset_lag;
+                    // A reset re-initialises the device: the queue selector reads 0 again.
+                    self.queue_sel = 0;
                 }
             }
             (0x16, 2) => self.queue_sel = v as u16,
